@@ -72,3 +72,12 @@ package taint
 //@   requires m != nil && m.Escapes != nil
 //@   ensures recorded: escapeInstr != nil && dataflow.Instr(source.Node) != nil ==> has(m.Escapes, escapeInstr) && has(m.Escapes[escapeInstr], dataflow.Instr(source.Node))
 //@   modifies map(ssa.Instruction;map[ssa.Instruction]bool), map(ssa.Instruction;bool)
+
+// ---------------------------------------------------------------------------
+// C01: a (source, sink) pair whose two nodes have instructions IS recorded in
+// Flows.Sinks -- the map whose non-emptiness makes the tool report and fail.
+//@ func Flows.addNewPathCandidate
+//@   property C01
+//@   requires m != nil && m.Sinks != nil
+//@   ensures recorded: source.Instr != nil && sink.Instr != nil ==> result && has(m.Sinks, sink) && has(m.Sinks[sink], source) && m.Sinks[sink][source]
+//@   ensures no_instruction: source.Instr == nil || sink.Instr == nil ==> !result
